@@ -227,6 +227,108 @@ def u2(rep, f):
                 rep.ok("U2", key)
 
 
+U8_NOT_STAMPED = {
+    # containers of struct stabLevel that today's undo does not filter (observed, not decided: nothing shows they hold
+    # objects of the rejected step that a later step can find)
+    "children": "child tables are reached through the level's entries",
+    "idsInScope": "identifiers seen, not meanings",
+    "labelsInScope": "labels of the current step only",
+    "extendSymes": "not filtered on today's tree",
+    "exportedTypes": "not filtered on today's tree",
+}
+U8_FILTERED = ("tbl", "boundSymes", "tformsUsed.list", "tformsUsed.table", "tformsUnused")
+
+
+def u8(rep):
+    """When a step of the interactive loop is rejected, scoUndoStabLevel takes back what the step put into the file-level symbol
+    table.  struct stabLevel holds its objects in several containers, and tformsUsed holds the same records twice (a list, and
+    for large levels a table used to look them up): a record left in either is found again by a later, correct step -- the
+    stale TFormUses of a type first mentioned by the rejected form is reused, the import it stands for is never made, and
+    correct forms are rejected.  Every container-typed field of struct stabLevel is either filtered by scoUndoStabLevel (with
+    listFreeIfSat / tblRemoveIf; also through a helper of scobind.c) or listed above with the reason; the five filtered today
+    stay filtered, and the two views of tformsUsed use the same predicate."""
+    f = common.extract("scobind.c", all_trees=True)
+    rec = f.records.get("stabLevel")
+    if rec is None:
+        raise AnalysisBroken("struct stabLevel not found")
+    fields = []
+    for nm, ty in rec["f"]:
+        if ty.endswith("List") or ty == "Table":
+            fields.append(nm)
+        elif ty.startswith("struct (unnamed"):
+            # the unnamed struct's members, from the member reads of the unit
+            subs = set()
+            for fn in f.funcs.values():
+                if "body" in fn:
+                    for x in walk(fn["body"]):
+                        if x["k"] == "MemberExpr" and (strip(x["c"][0]) or {}).get("k") == "MemberExpr" and strip(x["c"][0])["n"] == nm:
+                            subs.add(x["n"])
+            fields += ["%s.%s" % (nm, s_) for s_ in sorted(subs)]
+    for fld in U8_FILTERED:          # confirmed on today's tree; the members of the unnamed struct are only seen through their uses
+        if fld not in fields:
+            fields.append(fld)
+    rep.floor("container fields of struct stabLevel", len(fields), 9)
+
+    def path_of(e, param):
+        e = strip(e)
+        parts = []
+        while e is not None and e["k"] == "MemberExpr":
+            parts.append(e["n"])
+            e = strip(e["c"][0])
+        if e is not None and e["k"] == "DeclRefExpr" and e["n"] == param:
+            return ".".join(reversed(parts))
+        return None
+
+    def filters(fname, depth=0):
+        fn = f.funcs.get(fname)
+        out = {}
+        if fn is None or "body" not in fn or not fn.get("params"):
+            return out
+        param = fn["params"][0]["n"]
+        for c in calls(fn["body"]):
+            cal = c.get("callee")
+            if cal == "tblRemoveIf" and len(c["c"]) >= 4:
+                p_ = path_of(c["c"][1], param)
+                if p_:
+                    out[p_] = common.render(strip(c["c"][3]))
+            elif cal is None or cal == "":
+                # listFreeIfSat(T)(list, free, pred): a call through the list-operations table
+                txt = common.render(c["c"][0])
+                if "FreeIfSat" in txt and len(c["c"]) >= 4:
+                    p_ = path_of(c["c"][1], param)
+                    if p_:
+                        out[p_] = common.render(strip(c["c"][3]))
+            elif depth < 2 and cal in f.funcs and "body" in f.funcs[cal] and f.funcs[cal].get("file", "").endswith("scobind.c") and \
+                    len(c["c"]) >= 2 and path_of(c["c"][1], param) == "":
+                out.update(filters(cal, depth + 1))
+        return out
+    got = filters("scoUndoStabLevel")
+    if not got:
+        raise AnalysisBroken("scoUndoStabLevel: no listFreeIfSat / tblRemoveIf over the level's fields was recognised")
+    for fld in fields:
+        key = "undo-filters:%s" % fld
+        where = "scobind.c:%d (scoUndoStabLevel)" % f.func("scoUndoStabLevel")["l"]
+        if fld in got:
+            rep.ok("U8", key, sample={"predicate": got[fld]})
+        elif fld in U8_NOT_STAMPED:
+            rep.note("U8: %s is not filtered by the undo (%s)" % (fld, U8_NOT_STAMPED[fld]))
+        else:
+            rep.violation("U8", key, where,
+                          "the roll-back of a rejected step does not filter stabLevel.%s: what the rejected form put there stays "
+                          "findable.  For tformsUsed.table: the stale record of a type first mentioned by the rejected form is "
+                          "reused by the next `import from` of that type, nothing is added to the list that type inference walks, "
+                          "the import silently never happens and later correct forms are rejected" % fld)
+    a, b = got.get("tformsUsed.list"), got.get("tformsUsed.table")
+    if a is not None and b is not None:
+        strip_cast = lambda t: re.sub(r"^\([^)]*\)\s*", "", t)
+        if strip_cast(a) == strip_cast(b):
+            rep.ok("U8", "undo-filters:tformsUsed:one-predicate", sample={"predicate": strip_cast(a)})
+        else:
+            rep.violation("U8", "undo-filters:tformsUsed:one-predicate", "scobind.c (scoUndoStabLevel)",
+                          "the list and the table of tformsUsed hold the same records but are filtered with different predicates "
+                          "(%s, %s): a record can survive in one of them" % (a, b))
+
+
 def u7(rep, f):
     """typeInferTForms() skips a symbol-table level whose `isChecked` flag is set.  The file level stays open for the whole
     interactive session, so the flag must be false again whenever a step's type inference starts -- including the step after a
@@ -506,6 +608,7 @@ def run(tier, only=None):
     u5(rep)
     u6(rep)
     u7(rep, f)
+    u8(rep)
     rep.analysed_count("functions", 3)
     rep.assumptions.append("the CFG search is path-insensitive except for the fintMode == FINT_LOOP assumption in U1")
     return rep
